@@ -61,9 +61,33 @@ public:
             const XalanDOMChar  chars[],
             size_type           start,
             size_type           length,
-            bool&               /* outsideCDATA */)
+            bool&               outsideCDATA)
     {
         assert( chars != 0 );
+
+        if (outsideCDATA == true)
+        {
+            // The caller left the CDATA section to write a character
+            // reference.  Open a new section for this character.
+            static const value_type     s_cdataOpenString[] =
+            {
+                XalanUnicode::charLessThanSign,
+                XalanUnicode::charExclamationMark,
+                XalanUnicode::charLeftSquareBracket,
+                XalanUnicode::charLetter_C,
+                XalanUnicode::charLetter_D,
+                XalanUnicode::charLetter_A,
+                XalanUnicode::charLetter_T,
+                XalanUnicode::charLetter_A,
+                XalanUnicode::charLeftSquareBracket
+            };
+
+            write(
+                s_cdataOpenString,
+                sizeof(s_cdataOpenString) / sizeof(s_cdataOpenString[0]));
+
+            outsideCDATA = false;
+        }
 
         return write(chars, start, length);
     }
